@@ -100,6 +100,15 @@ def static_scan():
 ALLOW = None
 
 
+def malformed_input(ctx):
+    import subprocess
+    d = os.path.join(common.BUILD, "dw", "C12-" + ctx.tier)
+    os.makedirs(d, exist_ok=True)
+    obj = os.path.join(d, "badabbrev.o")
+    subprocess.run(["as", "-o", obj, os.path.join(common.VERIF, "vlib", "data", "badabbrev.s")], check=True)
+    return obj
+
+
 def run(ctx):
     oblig = common.prepare(ctx)
     if oblig is None:
@@ -107,10 +116,15 @@ def run(ctx):
     quick = ctx.tier == "quick"
     rng = ctx.sub_rng("hist")
     files = [os.path.join(common.REPO, "tests", f) for f in ("a1.out", "dwz-partial2-1", "twocus", "y.o")]
+    # a unit that cannot be walked to its end (undefined abbreviation code): whatever a failed
+    # execution left behind in the caches of the Dwarf value must not show in the next one
+    bad_obj = malformed_input(ctx)
     progs = [(p, None) for p in PROGRAMS]
     g = zgen.G(ctx.sub_rng("gen"), max_depth=2, illtyped=0.02)
     progs += [(g.program(), None) for _ in range(40 if quick else 400)]
     progs += [(p, f) for p in DW_PROGRAMS for f in (files if not quick else rng.sample(files, 2))]
+    progs += [(p, bad_obj) for p in ("entry parent offset", "entry [|E| E offset, E parent offset]", "entry offset", "raw entry parent offset",
+                                     "[entry] length", "unit root child parent label", "entry (|E| E parent (|P| P child (== E))) offset")]
 
     # fresh runs: every (program, input) in its own process
     fresh_lines, fresh_key = [], []
@@ -204,7 +218,7 @@ def run(ctx):
     ctx.cov.update({
         "evaluations": evaluations,
         "distinct_nontrivial": nontrivial,
-        "rule": "histories (random, length 6-30) of execute/pull/destroy over <= 3 live result sets and 3 input stacks, over the query compiled once and a second time, with unrelated queries (other backtick-bracket depths, closures, blocks) compiled/executed in between, %d programs (22 hand-picked covering every stateful construct, random ones, 10 DWARF producers on sample files); every pull compared with a fresh run in a fresh process; non-trivial = a result set pulled more than once while another one is live" % len(progs),
+        "rule": "histories (random, length 6-30) of execute/pull/destroy over <= 3 live result sets and 3 input stacks, over the query compiled once and a second time, with unrelated queries (other backtick-bracket depths, closures, blocks) compiled/executed in between, %d programs (22 hand-picked covering every stateful construct, random ones, 14 DWARF producers on sample files and on a unit that cannot be walked to its end); every pull compared with a fresh run in a fresh process; non-trivial = a result set pulled more than once while another one is live" % len(progs),
         "samples": samples,
         "traces_validated_against_impl": len(hist_lines),
         "programs": len(progs), "histories": len(hist_lines),
